@@ -96,3 +96,26 @@ V("BL3-benign-local-alias", "C15", None,
   ("tdms_segment.py", "        num_objects = _struct_unpack(endianness + 'L', num_objects_bytes)[0]\n", "        order = endianness\n        num_objects = _struct_unpack(order + 'L', num_objects_bytes)[0]\n"))
 V("BL3-benign-keyword-arg", "C15", None,
   ("tdms_segment.py", "            object_path = types.String.read(file, endianness)\n", "            object_path = types.String.read(file, endianness=endianness)\n"))
+
+# ---------------------------------------------------------------- C05 (CT1/OW4/CE1)
+V("CT1-revert-file-level-reseek", "C05", "CT1",
+  ("tdms_segment.py", "            yield chunk\n            file.seek(next_chunk_position)\n", "            yield chunk\n"))
+V("CT1-delete-channel-reseek", "C05", "CT1",
+  ("tdms_segment.py", "            yield chunk\n            file.seek(initial_position + (i + 1) * chunk_size)\n", "            yield chunk\n"))
+V("CT1-no-verify-segment-start", "C05", "CT1",
+  ("reader.py", "        for segment in self._segments:\n            self._verify_segment_start(segment)\n            for chunk in segment.read_raw_data(self._file):",
+   "        for segment in self._segments:\n            for chunk in segment.read_raw_data(self._file):"),
+  ("tdms_segment.py", "            yield RawDataChunk.empty()\n\n        f.seek(self.data_position)\n", "            yield RawDataChunk.empty()\n\n        f.seek(self.data_position - f.tell(), os.SEEK_CUR)\n"))
+V("CT1-relative-seek-to-data", "C05", "CT1",
+  ("tdms_segment.py", "            yield RawChannelDataChunk.empty()\n\n        f.seek(self.data_position)\n", "            yield RawChannelDataChunk.empty()\n\n        f.seek(self.data_position - self.position - 4, os.SEEK_CUR)\n"))
+V("CT1-benign-hoist-position", "C05", None,
+  ("tdms_segment.py", "        reader = self._get_data_reader()\n        initial_position = file.tell()\n", "        initial_position = file.tell()\n        reader = self._get_data_reader()\n"))
+V("OW4-cache-bounds-not-updated", "C05", "OW4",
+  ("tdms.py", "        self._cached_chunk = scaled_chunk\n        self._cached_chunk_bounds = (chunk_offset, chunk_offset + len(scaled_chunk))\n",
+   "        self._cached_chunk = scaled_chunk\n        if self._cached_chunk_bounds is None:\n            self._cached_chunk_bounds = (chunk_offset, chunk_offset + len(scaled_chunk))\n"))
+V("OW4-memo-written-elsewhere", "C05", "OW4",
+  ("tdms_segment.py", "        self._calculate_chunks()\n        return properties\n", "        self.chunk_size_cached = 0\n        self._calculate_chunks()\n        return properties\n"))
+V("OW4-one-sided-hit-test", "C05", "OW4",
+  ("tdms.py", "            if bounds[0] <= index < bounds[1]:\n", "            if index < bounds[1]:\n"))
+V("CE1-floor-blocks", "C05", "CE1",
+  ("reader.py", "    num_chunks = (len(a) + chunk_size - 1) // chunk_size\n", "    num_chunks = len(a) // chunk_size\n"))
